@@ -140,6 +140,13 @@ func fixedWidthFn(fn *ssa.Function) (int64, bool) {
 		}
 		k = n
 	}
+	// an encoder is total: a key helper that faults for some numbers (negative ones, say) makes every
+	// caller that reaches it with such a number fault — a resize whose drop range starts below epoch 0
+	for _, b := range fn.Blocks {
+		if _, isPanic := b.Instrs[len(b.Instrs)-1].(*ssa.Panic); isPanic {
+			return 0, false
+		}
+	}
 	// an in-place reordering (REVERSEITEMS) must work on the padded buffer itself: reversing the
 	// variable-length source before it is copied in left-aligns it, and values whose encodings differ
 	// only in trailing zero bytes (1, 256, 65536) collide — the result is fixed-width but not injective
